@@ -126,6 +126,16 @@ class Registry:
 
     def shape(self, name, base=None, external=False, ghost=(), final=False, **fields):
         sh = Shape(name, fields, base=base, external=external, ghost=ghost, final=final)
+        old = self.shapes.get(name)
+        if old is not None:
+            # a later declaration extends an earlier one (several spec modules talk about the same class)
+            merged = dict(old.fields)
+            merged.update(sh.fields)
+            sh.fields = merged
+            sh.base = sh.base or old.base
+            sh.external = sh.external or old.external
+            sh.final = sh.final or old.final
+            sh.ghost = set(sh.ghost) | set(old.ghost)
         self.shapes[name] = sh
         return sh
 
